@@ -257,6 +257,7 @@ example : HttpReady exampleHttpSt [72,84,84,80,47,49,46,49,32,50,48,48,32,79,107
   noTE := by decide
   cl := Or.inl ⟨rfl, by decide⟩
   written0 := rfl
+  version := by intro _; decide
 
 /-- and what that state sends for two writes: chunked, decoded back by the client -/
 example : (httpRun exampleHttpSt (callsOf [[1, 2, 3]] [4])).2 = false ∧
